@@ -2,7 +2,9 @@
 
 use crate::adversary::{Hostile, Rewriter};
 use crate::gen::*;
+use crate::oracle_rate::RfcOracle;
 use crate::oracle_transport::*;
+use crate::oracle_twin::{twin_run, AckForger};
 use crate::oracle_wire::*;
 use crate::plan::*;
 use crate::rng::Rng;
@@ -27,6 +29,11 @@ fn all_panics(_p: &PanicInfo) -> bool {
 /// C20: an arithmetic underflow in the sender's accounting is the property's own violation.
 fn overflow_in_sender(p: &PanicInfo) -> bool {
     p.message.contains("overflow") && p.file.contains("packet_sender")
+}
+
+/// C14: a panic inside the rate computer is the property's own violation.
+fn panics_in_rate_code(p: &PanicInfo) -> bool {
+    p.file.contains("send_rate") || p.file.contains("recv_rate_set") || p.file.contains("loss_rate")
 }
 
 fn with_states(mut v: Vec<Box<dyn Oracle>>) -> Vec<Box<dyn Oracle>> {
@@ -76,11 +83,11 @@ pub fn c01() -> CheckDef {
     CheckDef {
         property: "C01",
         families: vec![
-            Family { name: "a_mixed", world: "A", weight: 4, gen: c01_gen_mixed, oracles: c01_oracles, adversary: None, keep_workload: false,
+            Family { name: "a_mixed", world: "A", weight: 4, gen: c01_gen_mixed, oracles: c01_oracles, adversary: None, keep_workload: false, custom: None,
                 what: "two half connections, both directions, all modes, up to 64 channels, drop/dup/reorder/1-4 bit flips/blackouts/type-targeted loss in phases, random cadences and stalls" },
-            Family { name: "a_wrap", world: "A", weight: 3, gen: c01_gen_wrap, oracles: c01_oracles, adversary: None, keep_workload: false,
+            Family { name: "a_wrap", world: "A", weight: 3, gen: c01_gen_wrap, oracles: c01_oracles, adversary: None, keep_workload: false, custom: None,
                 what: "same, initial frame and packet ids within two windows of the 2^32 / 2^20 wrap-around and enough traffic to cross it" },
-            Family { name: "a_small_windows", world: "A", weight: 3, gen: c01_gen_small, oracles: c01_oracles, adversary: None, keep_workload: false,
+            Family { name: "a_small_windows", world: "A", weight: 3, gen: c01_gen_small, oracles: c01_oracles, adversary: None, keep_workload: false, custom: None,
                 what: "same, window sizes 1..64 so that windows fill and resynchronise constantly" },
         ],
         panic_is_violation: no_panics,
@@ -138,7 +145,7 @@ fn c02_oracles(plan: &Plan) -> Vec<Box<dyn Oracle>> {
 pub fn c02() -> CheckDef {
     CheckDef {
         property: "C02",
-        families: vec![Family { name: "a_fault_then_fair", world: "A", weight: 1, gen: c02_gen, oracles: c02_oracles, adversary: None, keep_workload: false,
+        families: vec![Family { name: "a_fault_then_fair", world: "A", weight: 1, gen: c02_gen, oracles: c02_oracles, adversary: None, keep_workload: false, custom: None,
             what: "finite fault prefix (loss/dup/reorder/flips/blackouts/ack- or sync-targeted loss, stalls) then a fair link (<= 200 ms, stepping <= 200 ms); safety on every delivery, liveness at quiescence or after T_live = 900 s + 128 s x 80 frames" }],
         panic_is_violation: no_panics,
         hang_is_violation: false,
@@ -246,11 +253,11 @@ pub fn c03() -> CheckDef {
     CheckDef {
         property: "C03",
         families: vec![
-            Family { name: "a_hostile_peer", world: "A", weight: 5, gen: c03_gen_hostile_peer, oracles: states_only, adversary: Some(c03_adv_peer), keep_workload: false,
+            Family { name: "a_hostile_peer", world: "A", weight: 5, gen: c03_gen_hostile_peer, oracles: states_only, adversary: Some(c03_adv_peer), keep_workload: false, custom: None,
                 what: "victim half connection vs a connected hostile peer: CRC-valid data/sync/ack frames with boundary, near-valid (computed from the victim's own frames) and random fields, fragment counts up to 65535, handshake/disconnect frames, random bytes, replays; interleaved with send/step/flush at arbitrary times incl. 0 us spacing" },
-            Family { name: "a_hostile_mitm", world: "A", weight: 3, gen: c03_gen_mitm, oracles: states_only, adversary: Some(c03_adv_mitm), keep_workload: false,
+            Family { name: "a_hostile_mitm", world: "A", weight: 3, gen: c03_gen_mitm, oracles: states_only, adversary: Some(c03_adv_mitm), keep_workload: false, custom: None,
                 what: "genuine pair under faults plus a hostile middlebox injecting crafted frames at both ends" },
-            Family { name: "a_genuine", world: "A", weight: 2, gen: c03_gen_genuine, oracles: states_only, adversary: None, keep_workload: false,
+            Family { name: "a_genuine", world: "A", weight: 2, gen: c03_gen_genuine, oracles: states_only, adversary: None, keep_workload: false, custom: None,
                 what: "genuine pair only: loss, blackouts, delay, stalls (panics and hangs reachable without any forged frame)" },
         ],
         panic_is_violation: all_panics,
@@ -384,9 +391,9 @@ pub fn c04() -> CheckDef {
     CheckDef {
         property: "C04",
         families: vec![
-            Family { name: "a_lengths", world: "A", weight: 1, gen: c04_gen_lengths, oracles: c04_oracles, adversary: None, keep_workload: false,
+            Family { name: "a_lengths", world: "A", weight: 1, gen: c04_gen_lengths, oracles: c04_oracles, adversary: None, keep_workload: false, custom: None,
                 what: "payload length swept over {0,1,2,11..13,63..65,255..257, k*1448-2..k*1448+2 for k=1..8,16,45, 1 MB} by run index; fragments permuted, duplicated, partially lost and resent, interleaved with other packets, flush budgets that cut packets; then a clean link until everything Reliable has arrived" },
-            Family { name: "a_rewrite", world: "A", weight: 1, gen: c04_gen_rewrite, oracles: c04_oracles, adversary: Some(c04_adv), keep_workload: true,
+            Family { name: "a_rewrite", world: "A", weight: 1, gen: c04_gen_rewrite, oracles: c04_oracles, adversary: Some(c04_adv), keep_workload: true, custom: None,
                 what: "same sweep, plus a hostile middlebox that appends to genuine frames a forged fragment for a packet in progress whose header disagrees with the first fragment seen (last-fragment id, channel or parent leads)" },
         ],
         panic_is_violation: no_panics,
@@ -477,7 +484,7 @@ fn c05_oracles(plan: &Plan) -> Vec<Box<dyn Oracle>> {
 pub fn c05() -> CheckDef {
     CheckDef {
         property: "C05",
-        families: vec![Family { name: "a_ideal", world: "A", weight: 1, gen: c05_gen, oracles: c05_oracles, adversary: None, keep_workload: false,
+        families: vec![Family { name: "a_ideal", world: "A", weight: 1, gen: c05_gen, oracles: c05_oracles, adversary: None, keep_workload: false, custom: None,
             what: "order-preserving loss-free link (fixed or varying latency 0.05 ms..3 s), both directions, bursts beyond the flush budget and both windows, arbitrary cadences and stalls, all initial ids; delivered sequence must equal submitted sequence minus sender-dropped TimeSensitive packets" }],
         panic_is_violation: no_panics,
         hang_is_violation: false,
@@ -586,11 +593,11 @@ pub fn c06() -> CheckDef {
     CheckDef {
         property: "C06",
         families: vec![
-            Family { name: "a_sender_respects", world: "A", weight: 10, gen: c06_gen_sender, oracles: c06_oracles_sender, adversary: None, keep_workload: false,
+            Family { name: "a_sender_respects", world: "A", weight: 10, gen: c06_gen_sender, oracles: c06_oracles_sender, adversary: None, keep_workload: false, custom: None,
                 what: "genuine pairs, receive limits 1 byte..6 MB, windows 1..4096, all ack schedules and losses: packets taken from the send queue and not yet below the accepted window base stay within the advertised (fragment-rounded) allocation and 4096 packets; the genuine receiver never discards a packet for lack of memory" },
-            Family { name: "a_hostile_stream", world: "A", weight: 10, gen: c06_gen_hostile_stream, oracles: c06_oracles_receiver, adversary: Some(c06_adv), keep_workload: false,
+            Family { name: "a_hostile_stream", world: "A", weight: 10, gen: c06_gen_hostile_stream, oracles: c06_oracles_receiver, adversary: Some(c06_adv), keep_workload: false, custom: None,
                 what: "victim receiver (limit 1 byte..4 MB) against a hostile stream: fragment counts up to 65536, ids inside/outside the window, never-completing packets, inconsistent parent leads, any read cadence; heap bytes attributed to the victim (allocator measurement) stay within the rounded limit plus a constant bookkeeping budget" },
-            Family { name: "a_ack_queue_flood", world: "A", weight: 1, gen: c06_gen_flood, oracles: c06_oracles_receiver, adversary: Some(c06_adv), keep_workload: false,
+            Family { name: "a_ack_queue_flood", world: "A", weight: 1, gen: c06_gen_flood, oracles: c06_oracles_receiver, adversary: Some(c06_adv), keep_workload: false, custom: None,
                 what: "victim with a 1472 B/s ceiling flooded with empty data frames whose ids are 32 apart, so that every frame opens a new acknowledgement group faster than they can be sent" },
         ],
         panic_is_violation: no_panics,
@@ -644,7 +651,7 @@ fn c12_oracles(_plan: &Plan) -> Vec<Box<dyn Oracle>> {
 pub fn c12() -> CheckDef {
     CheckDef {
         property: "C12",
-        families: vec![Family { name: "a_modes", world: "A", weight: 1, gen: c12_gen, oracles: c12_oracles, adversary: None, keep_workload: false,
+        families: vec![Family { name: "a_modes", world: "A", weight: 1, gen: c12_gen, oracles: c12_oracles, adversary: None, keep_workload: false, custom: None,
             what: "mixed modes, packets cut across flushes, acks arriving between fragments, losses and duplicates; every (packet id, fragment id) occurrence on the wire is attributed to its submission: Unreliable/TimeSensitive at most once, TimeSensitive begun by the first step() after send(), nothing re-emitted after its acknowledgement was processed or after the receiver moved past the packet" }],
         panic_is_violation: no_panics,
         hang_is_violation: false,
@@ -700,7 +707,7 @@ fn c13_oracles(_plan: &Plan) -> Vec<Box<dyn Oracle>> {
 pub fn c13() -> CheckDef {
     CheckDef {
         property: "C13",
-        families: vec![Family { name: "a_rate", world: "A", weight: 1, gen: c13_gen, oracles: c13_oracles, adversary: None, keep_workload: false,
+        families: vec![Family { name: "a_rate", world: "A", weight: 1, gen: c13_gen, oracles: c13_oracles, adversary: None, keep_workload: false, custom: None,
             what: "ceilings 1472 B/s..50 MB/s on either side, backlogs of hundreds to thousands of packets, cadences from several flushes per step to seconds between steps, pauses, loss and feedback patterns; every window of data/sync/ack frames is checked against ceiling x (duration + largest RTT estimate held) + 1472" }],
         panic_is_violation: no_panics,
         hang_is_violation: false,
@@ -713,6 +720,402 @@ pub fn c13() -> CheckDef {
             "handshake and disconnect frames are connection management and not part of the credit scheme: excluded",
             "all windows of <= 256 frames are checked exactly with the largest RTT estimate held inside the window; longer windows by a running-minimum scan with the run-wide largest estimate (both implied by the property)",
             "times are the sender's own (possibly skewed) clock",
+        ],
+    }
+}
+
+
+// ------------------------------------------------------------------------------------------ C14
+
+/// World U: the rate computer alone against arbitrary feedback histories.
+fn c14_gen_u(seed: u64, run: u64, thorough: bool) -> Plan {
+    let mut r = Rng::keyed(&[seed, run, 0xc14]);
+    let mut plan = Plan::new("C14", "u_feedback", seed, run);
+    let ceiling = match r.below(5) {
+        0 => 1472,
+        1 => r.log_range(1472, 100_000) as u32,
+        2 => 2_000_000,
+        3 => r.log_range(100_000, 4_000_000_000) as u32,
+        _ => u32::MAX,
+    };
+    plan.endpoints = vec![EndpointSpec { kind: EndpointKind::Rate { max_send_rate: ceiling }, addr: hc_addr(0), clock_ppm: 1_000_000, echo: false, nonces: Vec::new() }];
+    plan.push(0, 0, Op::Create { ep: 0 });
+    let n = r.range(5, if thorough { 400 } else { 150 });
+    let mut t = r.below(1_000_000);
+    // loss history shape: monotone, jumping, or zero after non-zero
+    let shape = r.below(4);
+    let mut p = 0.0f64;
+    let base_rtt = r.log_range(1, 60_000);
+    for _ in 0..n {
+        t += match r.below(8) {
+            0 => 0,
+            1 => r.range(1, 1000),
+            2 | 3 => r.range(1000, 100_000),
+            4 | 5 => r.range(100_000, 2_000_000),
+            6 => r.range(2_000_000, 30_000_000),
+            _ => r.range(30_000_000, 600_000_000),
+        };
+        match r.below(10) {
+            0..=2 => plan.push(t, 1, Op::RateSent { ep: 0 }),
+            3..=5 => plan.push(t, 1, Op::RateStep { ep: 0, fb: None }),
+            _ => {
+                p = match shape {
+                    0 => (p + r.f64() * 0.02).min(1.0),
+                    1 => {
+                        if r.chance(0.3) {
+                            *r.pick(&[0.0, 1e-6, 1e-4, 0.01, 0.1, 0.5, 1.0])
+                        } else {
+                            p
+                        }
+                    }
+                    2 => {
+                        if r.chance(0.2) {
+                            0.0
+                        } else {
+                            (p + r.f64() * 0.05).min(1.0)
+                        }
+                    }
+                    _ => r.f64() * r.f64(),
+                };
+                let rtt = match r.below(6) {
+                    0 => 0,
+                    1 => r.range(0, 5),
+                    2 | 3 => (base_rtt as f64 * (0.5 + r.f64())) as u64,
+                    4 => r.log_range(1, 60_000),
+                    _ => base_rtt,
+                };
+                let rate = match r.below(6) {
+                    0 => 0,
+                    1 => u32::MAX,
+                    2 => r.u32(),
+                    _ => r.log_range(1, 50_000_000) as u32,
+                };
+                plan.push(t, 1, Op::RateStep { ep: 0, fb: Some((rtt, rate, p, r.chance(0.4))) });
+            }
+        }
+    }
+    plan.end_us = t + 1;
+    plan.sort();
+    plan
+}
+
+/// Worlds A: the histories a real receiver produces (loss, blackouts, RTT steps).
+fn c14_gen_a(seed: u64, run: u64, thorough: bool) -> Plan {
+    let mut r = Rng::keyed(&[seed, run, 0xc14]);
+    let horizon = r.range(8, if thorough { 90 } else { 30 }) * 1_000_000;
+    let sc = AScenario {
+        near_wrap: false,
+        small_windows: run % 4 == 0,
+        packets: r.range(100, if thorough { 3000 } else { 800 }),
+        send_window_us: horizon * 2 / 3,
+        fault_until_us: horizon,
+        horizon_us: horizon,
+        allow_flips: false,
+        allow_stalls: true,
+        phases: r.range(2, 5),
+    };
+    world_a_general("C14", "a_real_feedback", seed, run, &sc, false)
+}
+fn c14_oracles(_plan: &Plan) -> Vec<Box<dyn Oracle>> {
+    with_states(vec![Box::new(RfcOracle::new("C14"))])
+}
+
+pub fn c14() -> CheckDef {
+    CheckDef {
+        property: "C14",
+        families: vec![
+            Family { name: "u_feedback", world: "U", weight: 3, gen: c14_gen_u, oracles: c14_oracles, adversary: None, keep_workload: false, custom: None,
+                what: "the rate computer alone: sequences of frame-sent / step / step-with-feedback with gaps 0 ms..10 min, RTT samples 0..60 s, receive rates 0..2^32-1, loss rates 0..1 (monotone, jumping, zero after non-zero), rate-limited flag, ceilings 1472..2^32-1" },
+            Family { name: "a_real_feedback", world: "A", weight: 1, gen: c14_gen_a, oracles: c14_oracles, adversary: None, keep_workload: false, custom: None,
+                what: "two half connections under loss, blackouts and stalls: the feedback histories a real uflow receiver produces" },
+        ],
+        panic_is_violation: panics_in_rate_code,
+        hang_is_violation: true,
+        quick_runs: 40_000,
+        thorough_runs: 1_500_000,
+        rule: "one case = one simulated run (World U: 5..150 operations on the rate computer); distinct = distinct run digest; non-trivial = at least 3 rate updates (feedback or no-feedback expiry) checked",
+        real_code: "SendRateComp, RecvRateSet (World U); the whole HalfConnection in World A",
+        stubs: "World U: everything but the rate computer (the harness is the rest of the sender: it supplies now_ms, frame-sent notifications and feedback reports)",
+        assumptions: vec![
+            "the independent evaluator uses the RFC 5348 throughput equation in f64 with t_RTO = 4R and s = 1472; one byte per second of tolerance for integer truncation",
+            "x_before / x_after / RTT before and after are read by the Feedback and NoFeedbackExpired trace taps; the probe after every call checks that nothing else moves the rate",
+        ],
+    }
+}
+
+
+// ------------------------------------------------------------------------------------------ C15
+
+fn c15_gen(seed: u64, run: u64, thorough: bool) -> Plan {
+    let mut r = Rng::keyed(&[seed, run, 0xc15]);
+    let horizon = r.range(5, if thorough { 60 } else { 25 }) * 1_000_000;
+    let sc = AScenario {
+        near_wrap: run % 5 == 0,
+        small_windows: run % 3 == 0,
+        packets: r.range(50, if thorough { 1500 } else { 500 }),
+        send_window_us: horizon * 2 / 3,
+        fault_until_us: horizon,
+        horizon_us: horizon,
+        allow_flips: false,
+        allow_stalls: true,
+        phases: r.range(1, 3),
+    };
+    let mut plan = world_a_general("C15", "a_twin_acks", seed, run, &sc, false);
+    plan.adversary = "ack_forger".into();
+    plan.params.insert("twin_sender".into(), 0.0);
+    plan.params.insert("forge_max".into(), r.range(10, 400) as f64);
+    plan
+}
+fn c15_adv(plan: &Plan) -> Option<Box<dyn Adversary>> {
+    Some(Box::new(AckForger::new(plan, 0, 1)))
+}
+fn c15_oracles_unused(_plan: &Plan) -> Vec<Box<dyn Oracle>> {
+    Vec::new()
+}
+
+pub fn c15() -> CheckDef {
+    CheckDef {
+        property: "C15",
+        families: vec![Family { name: "a_twin_acks", world: "A", weight: 1, gen: c15_gen, oracles: c15_oracles_unused, adversary: Some(c15_adv), keep_workload: true, custom: Some(twin_run),
+            what: "twin runs: the same plan with and without extra ack frames delivered to one sender - groups over known frames with the wrong parity, groups touching only unknown frames (beyond the next id / behind the log), exact copies of genuine ack frames replayed 1 us..2 min after the original was consumed, genuine groups re-packed into a new frame; the window-base fields equal what the sender already holds" }],
+        panic_is_violation: no_panics,
+        hang_is_violation: false,
+        quick_runs: 1500,
+        thorough_runs: 40_000,
+        rule: "one case = one pair of simulated runs (baseline and twin, same seed so nonces and fates coincide); distinct = distinct combined digest; non-trivial = at least 3 extra ack frames reached the sender and at least 20 of its calls were compared",
+        real_code: REAL_A,
+        stubs: STUB_A,
+        assumptions: vec![
+            "compared after every call into the sender: the bytes of every frame it emits and its probe (RTT estimate, RTO, allowed rate, loss rate, no-feedback timer, queue lengths, window ids, credit)",
+            "a replayed or re-packed acknowledgement is only injected after the original has certainly been consumed by the sender; forged groups over unknown frames keep every set bit outside the sender's frame log",
+        ],
+    }
+}
+
+
+// ------------------------------------------------------------------------------------------ C11
+
+fn c11_plan(scenario: &str, seed: u64, run: u64, thorough: bool, rate_recovery: bool) -> Plan {
+    let mut r = Rng::keyed(&[seed, run, 0xc11]);
+    let mut plan = Plan::new("C11", scenario, seed, run);
+    plan.fate_seed = Some(crate::rng::key(&[seed, run, 0xfa7e]));
+    let setup = ASetup::sample(&mut r, run % 6 == 0, run % 2 == 0);
+    plan.endpoints = setup.endpoints();
+    plan.push(0, 0, Op::Create { ep: 0 });
+    plan.push(0, 1, Op::Create { ep: 1 });
+    let latency = sample_latency(&mut r);
+    plan.push(0, 2, Op::Link { from: None, to: None, rule: clean_rule(latency) });
+    // warm-up traffic so that windows fill, then the fault
+    let warm = r.range(300_000, 6_000_000);
+    let fault_len = match r.below(4) {
+        0 => r.range(100_000, 1_000_000),
+        1 => r.range(1_000_000, 5_000_000),
+        _ => r.range(5_000_000, if thorough { 40_000_000 } else { 19_000_000 }),
+    };
+    let heal = warm + fault_len;
+    let kind = r.below(6);
+    for (from, to) in [(0usize, 1usize), (1, 0)] {
+        let mut rule = clean_rule(latency);
+        match kind {
+            0 => rule.blackout = true,
+            1 => rule.blackout = from == 0,
+            2 => rule.blackout = from == 1,
+            3 => {
+                // all acknowledgements lost for the period
+                rule.drop_types = 1 << 12;
+                rule.drop_types_p = 1.0;
+            }
+            4 => {
+                // lasting change of the round-trip time by an order of magnitude
+                rule.latency_us = if r.chance(0.5) { latency * 10 } else { (latency / 10).max(50) };
+            }
+            _ => {
+                rule.drop_p = 0.5;
+                rule.blackout = r.chance(0.3);
+            }
+        }
+        plan.push(warm, 2, Op::Link { from: Some(from), to: Some(to), rule });
+    }
+    // heal: frames flow again; an RTT step stays in force (it is the new path), faults stop
+    let healed_latency = if kind == 4 { if r.chance(0.5) { latency * 10 } else { (latency / 10).max(50) } } else { latency };
+    plan.push(heal, 2, Op::Link { from: None, to: None, rule: clean_rule(healed_latency.min(2_000_000)) });
+    plan.push(heal, 3, Op::Mark { name: "heal".into() });
+    let mut short_ch = 0;
+    let mut tiny_mode = 0;
+    let mut bytes = [0u64; 2];
+    for ep in 0..2 {
+        let max_len = ((setup.alloc[1 - ep] + FRAG - 1) / FRAG * FRAG).min(20_000);
+        let n = if rate_recovery { r.range(400, 1500) } else { r.range(20, 400) };
+        let mut w = Workload::sample(&mut r, n, max_len);
+        if ep == 0 {
+            short_ch = w.short_ch;
+            tiny_mode = w.tiny_mode;
+        } else {
+            w.channels = w.channels.max(short_ch + 1);
+            w.short_ch = short_ch;
+            w.tiny_mode = tiny_mode;
+        }
+        if rate_recovery && ep == 0 {
+            w.mode_w = [0, 0, 1, 3];
+            w.fixed_len = Some(max_len.min(1400) as u32);
+        }
+        if !rate_recovery || ep == 0 {
+            // mostly before and during the fault: entire windows of frames/packets get lost
+            w.sends(&mut r, &mut plan, ep, None, 0, heal, 0);
+        }
+        let cad = Cadence::sample(&mut r);
+        cad.steps(&mut r, &mut plan, ep, 0, heal, 6000, true);
+        let period = cad.period_us.clamp(1000, 200_000);
+        plan.push(heal + r.below(period), r.u32() | 1, Op::StepEvery { ep, period_us: period, until_us: u64::MAX });
+    }
+    for t in plan.timeline.iter() {
+        if let Op::Send { ep, len, .. } = &t.op {
+            bytes[*ep] += *len as u64 + 14;
+        }
+    }
+    plan.params.insert("short_ch".into(), short_ch as f64);
+    if rate_recovery {
+        // standing backlog, clean link, 600 s
+        plan.params.insert("expect_rate_recovery".into(), 1.0);
+        plan.params.insert("backlog_ep0".into(), 1.0);
+        // keep the backlog standing: a steady trickle of new reliable data
+        let mut t = heal;
+        let mut tag = 500_000u32;
+        while t < heal + 600_000_000 {
+            plan.push(t, 0x4000_0000, Op::Send { ep: 0, to: None, ch: 1, mode: MODE_RELIABLE, len: 1400.min(((setup.alloc[1] + FRAG - 1) / FRAG * FRAG) as u32), tag });
+            tag += 1;
+            t += 250_000;
+        }
+        plan.end_us = heal + 600_000_000;
+    } else {
+        // probes of every mode after the last fault
+        let t0 = heal + r.range(0, 3_000_000);
+        let mut tag = PROBE_TAG;
+        for ep in 0..2 {
+            let cap = (((setup.alloc[1 - ep] + FRAG - 1) / FRAG * FRAG) as u32).min(3000);
+            for mode in [MODE_RELIABLE, MODE_PERSISTENT, MODE_UNRELIABLE] {
+                let len = r.range(12, cap.max(12) as u64) as u32;
+                plan.push(t0 + r.below(1_000_000), 0x4000_0000 + (tag - PROBE_TAG), Op::Send { ep, to: None, ch: (ep as u8 + 2) % 64, mode, len, tag });
+                tag += 1;
+            }
+            // TimeSensitive probes: re-submitted every second and flushed immediately
+            for k in 0..60u64 {
+                let t = t0 + k * 1_000_000 + ep as u64 * 1000;
+                plan.push(t, 0x4000_0000 + (tag - PROBE_TAG), Op::Send { ep, to: None, ch: (ep as u8 + 3) % 64, mode: MODE_TIME_SENSITIVE, len: 40.min(cap), tag });
+                plan.push(t, 0x5000_0000 + (tag - PROBE_TAG), Op::Flush { ep });
+                tag += 1;
+            }
+        }
+        plan.params.insert("expect_live".into(), 1.0);
+        plan.params.insert("end_when_quiescent".into(), 1.0);
+        let frames = (bytes[0].max(bytes[1]) / 1448 + 80).min(400);
+        plan.end_us = heal + (900 + 128 * frames) * 1_000_000;
+    }
+    for t in plan.timeline.iter_mut() {
+        if let Op::StepEvery { until_us, .. } = &mut t.op {
+            *until_us = plan.end_us;
+        }
+    }
+    plan.sort();
+    plan
+}
+fn c11_gen_recover(seed: u64, run: u64, thorough: bool) -> Plan {
+    c11_plan("a_blackout_recover", seed, run, thorough, false)
+}
+fn c11_gen_rate(seed: u64, run: u64, thorough: bool) -> Plan {
+    c11_plan("a_rate_recovers", seed, run, thorough, true)
+}
+fn c11_oracles(plan: &Plan) -> Vec<Box<dyn Oracle>> {
+    with_states(vec![
+        Box::new(RecoveryOracle::new("C11")),
+        Box::new(TransportOracle::new("C11", TransportClauses { reliable_live: true, ..Default::default() }, plan)),
+    ])
+}
+fn c11_oracles_rate(_plan: &Plan) -> Vec<Box<dyn Oracle>> {
+    with_states(vec![Box::new(RecoveryOracle::new("C11"))])
+}
+
+pub fn c11() -> CheckDef {
+    CheckDef {
+        property: "C11",
+        families: vec![
+            Family { name: "a_blackout_recover", world: "A", weight: 4, gen: c11_gen_recover, oracles: c11_oracles, adversary: None, keep_workload: false, custom: None,
+                what: "warm-up traffic, then a blackout of 0.1..19 s (40 s thorough) in one or both directions, or the loss of all acknowledgements, or 50 % loss, or a lasting x10 / /10 change of the round-trip time; small and default windows, exhausted allocation; after the last fault probe packets of every mode (TimeSensitive ones every second, flushed at once) must be delivered, everything Reliable delivered and the senders drained within T_live" },
+            Family { name: "a_rate_recovers", world: "A", weight: 1, gen: c11_gen_rate, oracles: c11_oracles_rate, adversary: None, keep_workload: false, custom: None,
+                what: "same faults with a standing backlog; after 600 s on a clean link the allowed rate must have left the s/64 floor (>= min(ceiling, 10 x floor))" },
+        ],
+        panic_is_violation: no_panics,
+        hang_is_violation: true,
+        quick_runs: 1500,
+        thorough_runs: 40_000,
+        rule: "one case = one simulated run; distinct = distinct run digest; non-trivial = probes were submitted after the last fault (or the rate clause was evaluated at the end)",
+        real_code: REAL_A,
+        stubs: STUB_A,
+        assumptions: vec![
+            "no timeouts in World A, so the transport's own recovery is observed in isolation",
+            "T_live = 900 s + 128 s per frame of backlog (the s/64 floor rate) after the last fault; runs end early at quiescence",
+            "a call that never returns in this scenario is a C11 violation as well (confirmed in a child process)",
+        ],
+    }
+}
+
+// ------------------------------------------------------------------------------------------ C19
+
+fn c19_gen(seed: u64, run: u64, thorough: bool) -> Plan {
+    let mut r = Rng::keyed(&[seed, run, 0xc19]);
+    // short horizons: connections are dropped mid-transfer
+    let horizon = r.range(1, if thorough { 30 } else { 12 }) * 1_000_000;
+    let sc = AScenario {
+        near_wrap: run % 5 == 0,
+        small_windows: run % 3 == 0,
+        packets: r.range(20, 300),
+        send_window_us: horizon,
+        fault_until_us: horizon,
+        horizon_us: horizon,
+        allow_flips: false,
+        allow_stalls: true,
+        phases: r.range(1, 3),
+    };
+    let mut plan = world_a_general("C19", "a_heap", seed, run, &sc, false);
+    // multi-fragment sizes that are not a multiple of the fragment size, in skippable modes too
+    for t in plan.timeline.iter_mut() {
+        if let Op::Send { len, mode, .. } = &mut t.op {
+            if r.chance(0.3) {
+                *len = (r.range(1, 6) * FRAG + r.range(1, FRAG - 1)) as u32;
+                if r.chance(0.5) {
+                    *mode = *r.pick(&[MODE_UNRELIABLE, MODE_PERSISTENT]);
+                }
+            }
+        }
+    }
+    // respect the allocation limits
+    let limits: Vec<u64> = plan.endpoints.iter().map(|e| match &e.kind { EndpointKind::Hc { spec, .. } => (spec.tx_alloc_limit + FRAG - 1) / FRAG * FRAG, _ => 0 }).collect();
+    for t in plan.timeline.iter_mut() {
+        if let Op::Send { ep, len, .. } = &mut t.op {
+            *len = (*len as u64).min(limits[*ep]) as u32;
+        }
+    }
+    plan
+}
+fn c19_oracles(_plan: &Plan) -> Vec<Box<dyn Oracle>> {
+    vec![Box::new(HeapOracle::new("C19"))]
+}
+
+pub fn c19() -> CheckDef {
+    CheckDef {
+        property: "C19",
+        families: vec![Family { name: "a_heap", world: "A", weight: 1, gen: c19_gen, oracles: c19_oracles, adversary: None, keep_workload: false, custom: None,
+            what: "multi-fragment sizes that are not multiples of the fragment size in every mode; delivered, skipped, window advanced over partial packets (loss of Unreliable/Persistent fragments), connection dropped mid-transfer; a layout-checking allocator watches every deallocation, and after dropping every endpoint the bytes they allocated must all be back" }],
+        panic_is_violation: no_panics,
+        hang_is_violation: false,
+        quick_runs: 2000,
+        thorough_runs: 50_000,
+        rule: "one case = one simulated run; distinct = distinct run digest; every run ends with a teardown check",
+        real_code: REAL_A,
+        stubs: STUB_A,
+        assumptions: vec![
+            "the harness installs a global allocator that stores size and alignment in a header in front of every block and compares them with the Layout passed to dealloc; live bytes are counted per accounting domain (one per endpoint)",
+            "Miri is not part of the registered commands (too slow for the run budget); see DESIGN.md",
         ],
     }
 }
@@ -752,7 +1155,7 @@ fn c20_oracles(plan: &Plan) -> Vec<Box<dyn Oracle>> {
 pub fn c20() -> CheckDef {
     CheckDef {
         property: "C20",
-        families: vec![Family { name: "a_buffer", world: "A", weight: 1, gen: c20_gen, oracles: c20_oracles, adversary: None, keep_workload: false,
+        families: vec![Family { name: "a_buffer", world: "A", weight: 1, gen: c20_gen, oracles: c20_oracles, adversary: None, keep_workload: false, custom: None,
             what: "mixed traffic with many TimeSensitive packets, window and allocation stalls, ack loss; after every call send_buffer_size() must equal accepted - acknowledged - discarded" }],
         panic_is_violation: overflow_in_sender,
         hang_is_violation: false,
@@ -766,7 +1169,7 @@ pub fn c20() -> CheckDef {
 }
 
 pub fn all() -> Vec<CheckDef> {
-    vec![c01(), c02(), c03(), c04(), c05(), c06(), c12(), c13(), c20()]
+    vec![c01(), c02(), c03(), c04(), c05(), c06(), c11(), c12(), c13(), c14(), c15(), c19(), c20()]
 }
 
 pub fn by_id(id: &str) -> Option<CheckDef> {
